@@ -12,12 +12,16 @@ BOUNDED = {
     "C17": [
         {"name": "validate_path@path_strings", "script": "enum_contract.py", "args": [IX, "validate_path", "path_strings"]},
         {"name": "_is_ntfs_dotgit@element_strings", "script": "enum_contract.py", "args": [IX, "_is_ntfs_dotgit", "element_strings"]},
+        {"name": "c17_fs", "script": "c17_fs.py", "args": []},
     ],
     "C16": [
         {"name": "c16_backends", "script": "c16_backends.py", "args": []},
     ],
     "C11": [
         {"name": "c11_roundtrip", "script": "c11_roundtrip.py", "args": []},
+    ],
+    "C01": [
+        {"name": "c01_roundtrip", "script": "c01_roundtrip.py", "args": []},
     ],
     "C02": [
         {"name": "c02_roundtrip", "script": "c02_roundtrip.py", "args": []},
